@@ -118,3 +118,36 @@ Proof.
   eexists. eexists. split; [vm_compute; reflexivity|].
   repeat split; vm_compute; reflexivity.
 Qed.
+
+(* ---- visit links ---- *)
+(** LINK (bridge for C15 o C14): the event sequence of the explicit-stack machine is the
+    recursive trace [rt_roots] (root by root: Init, Previsit, the successors loop — Revisit
+    for a known successor, otherwise Previsit / loop / Postvisit of the successor —,
+    Postvisit, Done), for every root list and all marks left by earlier visits.  This is
+    the form in which the structurally recursive models of C15 consume the visit. *)
+From WG Require Import Links.VisitLinkStatements Links.VisitLinkDfsFacts.
+
+Theorem C14_link_trace_recursive : S_dfs_trace_recursive.
+Proof. exact dfs_trace_recursive. Qed.
+Print Assumptions C14_link_trace_recursive.
+
+(** non-vacuity: a graph with a cycle through the root and two back arcs, a repeated root
+    and a mark left by an earlier visit *)
+Example C14_link_trace_nonvacuous :
+  let g := [[1];[2;0];[3];[1;0];[4;2]] in
+  gwf g = true
+  /\ fst (rt_roots g [0;4;0] [2])
+     = [EInit 0; EPre 0 0 0 0; EPre 1 0 0 1; ERev 2 1 0 2 false; ERev 0 1 0 2 false;
+        EPost 1 0 0 1; EPost 0 0 0 0; EDone 0;
+        EInit 4; EPre 4 4 4 0; ERev 4 4 4 1 false; ERev 2 4 4 1 false; EPost 4 4 4 0; EDone 4]
+  /\ exists cf, DfsM.dfs Pred g DfsM.no_filter [0;4;0] [2] [] = DfsOk (fst (rt_roots g [0;4;0] [2])) cf
+                /\ c_known cf = [4;1;0;2].
+Proof.
+  cbv zeta. split; [vm_compute; reflexivity|]. split; [vm_compute; reflexivity|].
+  destruct (C14_link_trace_recursive [[1];[2;0];[3];[1;0];[4;2]] [0;4;0] [2] []) as (cf & H1 & H2).
+  - vm_compute. reflexivity.
+  - intros r [H|[H|[H|[]]]]; subst r; vm_compute; reflexivity.
+  - split; [repeat constructor; intros []|]. intros v [H|[]]. subst v. vm_compute. reflexivity.
+  - exists cf. split; [exact H1|]. rewrite H2. vm_compute. reflexivity.
+Qed.
+(* ---- visit links ---- *)
